@@ -652,7 +652,7 @@ def run_check(tier, seed):
         except Exception as ex:
             V.broken_tie('harness c02_nb failed on the layout probe', 'rc=%s %s %s' % (rc, se[-500:], ex))
             return V.finish()
-        ncases = {1: 140, 2: 24, 3: 12} if tier == 'quick' else {1: 1500, 2: 200, 3: 100}
+        ncases = {1: 140, 2: 24, 3: 12} if tier == "quick" else {1: 4000, 2: 600, 3: 300}
         samples = []
         caseno = 0
         for nr in (1, 2, 3):
